@@ -3,5 +3,5 @@ def check(res, thorough):
     return interpprops.check(res, thorough, "C06", "AscaVerif.Props.C06", "c06-spec", "c06.cases", "c06.nontrivial_rule_would_fire",
         """rules generated from the documented grammar (profiles Tame 3/4, Full 1/4: sets, optionals, ellipses, structures, variables, alphas, environment sets, condensed rules) into which a literal segment absent from the word is planted at a random top-level position of the input (insertion: of the context), x generated words; blank / white-space / comment-only lines; the result must equal the word structurally whenever the call returns Ok; non-trivial = the un-planted rule changes the word""",
         ["cases on which the pinned tree panics or hangs are skipped (C02)", "findings are labelled by syntactic predicates of the planted rule; only the four families of known_findings.json are tolerated"],
-        extra_ops=[("parse-ops", "parse-ops", 30000)], extra_props=["AscaVerif.Props.C06Parse"])
+        extra_ops=[("parse-ops", "parse-ops", 30000)], extra_props=["AscaVerif.Props.C06Parse", "AscaVerif.Props.C06Run"])
 replay = interpprops.replay
